@@ -7,9 +7,12 @@
 (* object's own state (custom words, ignore list) shows.                             *)
 (* ResyncOnChange = FALSE reproduces import_words before the repair: the lint group  *)
 (* is only re-synchronised when the number of words grew.                             *)
+(* The ignore list can be exported (saved), cleared and imported (import appends).    *)
+(* LintMemo = TRUE is a deviation a seeded change introduced: lint() remembers its    *)
+(* last answer per text and import_ignored_lints forgets to drop it.                   *)
 EXTENDS DictOps
 
-CONSTANTS MaxOps, ResyncOnChange
+CONSTANTS MaxOps, ResyncOnChange, LintMemo
 
 Foo == <<"a", "b">>           \* a word the curated dictionary lacks
 FooCap == <<"A", "b">>        \* its capitalised spelling
@@ -17,8 +20,11 @@ Bar == <<"b", "b">>           \* another unknown word
 Vocab == {Foo, FooCap, Bar}
 Texts == {<<Foo>>, <<FooCap>>, <<Bar>>, <<Foo, Bar>>, <<FooCap, Foo>>}
 
-VARIABLES user, synced, ignored, nops, hist
-jsvars == <<user, synced, ignored, nops, hist>>
+VARIABLES user, synced, ignored, saved, memo, shown, nops, hist
+jsvars == <<user, synced, ignored, saved, memo, shown, nops, hist>>
+\* the state without the history of calls (a VIEW for configurations that do not emit cases)
+NoHist == <<user, synced, ignored, saved, memo, shown, nops, IF hist # <<>> THEN hist[Len(hist)].op ELSE "">>
+NoMemo == [t |-> <<>>, r |-> {}]
 
 Accepts(ws, w) == MutContains(ws, w) /\ (MutExact(ws, w) \/ MutExact(ws, Lower(w)))
 \* lint(text): positions of words the synchronised dictionary does not accept, minus ignored
@@ -26,7 +32,7 @@ Flagged(ws, t) == {i \in DOMAIN t : ~Accepts(ws, t[i])}
 Ctx(t, i) == <<t[i], IF i > 1 THEN t[i - 1] ELSE <<>>, IF i < Len(t) THEN t[i + 1] ELSE <<>> >>
 LintOf(ws, ig, t) == {i \in Flagged(ws, t) : Ctx(t, i) \notin ig}
 
-JInit == user = <<>> /\ synced = <<>> /\ ignored = {} /\ nops = 0 /\ hist = <<>>
+JInit == user = <<>> /\ synced = <<>> /\ ignored = {} /\ saved = {} /\ memo = NoMemo /\ shown = NoMemo /\ nops = 0 /\ hist = <<>>
 Log(op) == hist' = Append(hist, op) /\ nops' = nops + 1
 \* import_words
 ImportWords(ws) ==
@@ -36,17 +42,27 @@ ImportWords(ws) ==
          changed == MapOf(u2) # MapOf(user)
      IN /\ user' = u2
         /\ synced' = IF (IF ResyncOnChange THEN changed ELSE grew) THEN u2 ELSE synced
-  /\ UNCHANGED ignored /\ Log([op |-> "import", words |-> ws])
+  /\ memo' = NoMemo /\ UNCHANGED <<ignored, saved, shown>> /\ Log([op |-> "import", words |-> ws])
 IgnoreLint(t, i) ==
   /\ nops < MaxOps /\ i \in DOMAIN t /\ i \in LintOf(synced, ignored, t)
   /\ ignored' = ignored \cup {Ctx(t, i)}
-  /\ UNCHANGED <<user, synced>> /\ Log([op |-> "ignore", text |-> t, at |-> i])
+  /\ memo' = NoMemo /\ UNCHANGED <<user, synced, saved, shown>> /\ Log([op |-> "ignore", text |-> t, at |-> i])
 \* export ignored -> clear -> import ignored
-RoundTripIgnored == nops < MaxOps /\ UNCHANGED <<user, synced, ignored>> /\ Log([op |-> "ignored_roundtrip"])
+RoundTripIgnored == nops < MaxOps /\ memo' = NoMemo /\ UNCHANGED <<user, synced, ignored, saved, shown>> /\ Log([op |-> "ignored_roundtrip"])
+\* the three calls on their own, and lint() as a call whose answer is observed
+ExportIgnored == nops < MaxOps /\ saved' = ignored /\ UNCHANGED <<user, synced, ignored, memo, shown>> /\ Log([op |-> "export_ignored"])
+ClearIgnored == nops < MaxOps /\ ignored' = {} /\ memo' = NoMemo /\ UNCHANGED <<user, synced, saved, shown>> /\ Log([op |-> "clear_ignored"])
+ImportIgnored == nops < MaxOps /\ ignored' = ignored \cup saved /\ memo' = (IF LintMemo THEN memo ELSE NoMemo)
+                 /\ UNCHANGED <<user, synced, saved, shown>> /\ Log([op |-> "import_ignored"])
+Lint(t) == /\ nops < MaxOps
+           /\ LET r == IF LintMemo /\ memo.t = t THEN memo.r ELSE LintOf(synced, ignored, t) IN
+              /\ shown' = [t |-> t, r |-> r] /\ memo' = [t |-> t, r |-> r]
+           /\ UNCHANGED <<user, synced, ignored, saved>> /\ Log([op |-> "lint", text |-> t])
 JNext == \/ \E w \in Vocab : ImportWords(<<w>>)
          \/ \E w1, w2 \in Vocab : ImportWords(<<w1, w2>>)
          \/ \E t \in Texts, i \in 1..2 : IgnoreLint(t, i)
-         \/ RoundTripIgnored
+         \/ RoundTripIgnored \/ ExportIgnored \/ ClearIgnored \/ ImportIgnored
+         \/ \E t \in Texts : Lint(t)
 
 \* export_words -> new Linter -> import_words : the clone's state
 ExportedWords == LET S == MutWords(user) IN CHOOSE s \in [1..Cardinality(S) -> S] : \A i, j \in DOMAIN s : i # j => s[i] # s[j]
@@ -60,4 +76,7 @@ ImportedWordsAccepted == \A i \in DOMAIN user : \A t \in Texts : \A k \in DOMAIN
 \* ignoring removes that lint and nothing else (checked on the transition by the trace spec;
 \* here: an ignored context is never reported)
 IgnoredStayHidden == \A t \in Texts : \A i \in DOMAIN t : Ctx(t, i) \in ignored => i \notin LintOf(synced, ignored, t)
+\* what lint() last answered is what the current state says about that text, as long as the state
+\* has not changed since (shown is compared right after the call: the answer is never stale)
+AnswerIsCurrent == (hist # <<>> /\ hist[Len(hist)].op = "lint") => shown.r = LintOf(synced, ignored, shown.t)
 =============================================================================
